@@ -258,7 +258,7 @@ func c09Cases(tier string, seed uint64) []fw.Case {
 	n := 96
 	variants := []string{"plain"}
 	if tier == "thorough" {
-		n = 1600
+		n = 8000
 		variants = []string{"plain", "race"}
 	}
 	var cs []fw.Case
